@@ -201,6 +201,19 @@ func exploreOnce(t *testing.T, id int, rnd *rand.Rand, mode string) (rec0 Record
 		wipeLeft, stopLeft := c.wipe, c.stopMid
 		appendBusy := false // the previous Append has not returned yet (keeps the submission order of the script)
 		var errs []string
+		// scheduling policy: uniform random walk, or (every other run) one directed preemption
+		preempt := id%2 == 1
+		phase, preludeLeft, victimSteps := 0, rnd.Intn(4), rnd.Intn(14)
+		victimProc := "-"
+		victimKind := []string{"append", "append", "sync", "reader", "delete", "stop"}[rnd.Intn(6)]
+		switch {
+		case mode == "c17" && (victimKind == "reader" || victimKind == "stop"):
+			victimKind = "delete"
+		case mode == "c12" && (victimKind == "delete" || victimKind == "stop"):
+			victimKind = "reader"
+		case mode == "c06" && (victimKind == "reader" || victimKind == "delete"):
+			victimKind = "stop"
+		}
 		for step := 0; step < 600; step++ {
 			type act struct {
 				kind string
@@ -243,6 +256,73 @@ func exploreOnce(t *testing.T, id int, rnd *rand.Rand, mode string) (rec0 Record
 			}
 			if len(acts) == 0 {
 				break
+			}
+			if preempt {
+				// one-preemption policy: a prelude run to quiescence, then one call (the victim) is stepped alone for a
+				// few gates, then everything else runs to quiescence around it, then the victim finishes
+				var rel, relV, relO, calls, callV []act
+				for _, x := range acts {
+					switch {
+					case x.kind == "release" && (x.proc == victimProc || x.proc == victimProc+"'"):
+						relV = append(relV, x)
+					case x.kind == "release":
+						relO = append(relO, x)
+					case x.kind == victimKind:
+						callV = append(callV, x)
+					case x.kind != "wipe":
+						calls = append(calls, x)
+					}
+				}
+				rel = append(append(rel, relV...), relO...)
+				switch phase {
+				case 0:
+					switch {
+					case len(rel) > 0:
+						acts = rel
+					case preludeLeft > 0 && len(calls) > 0:
+						acts = calls[:1]
+						preludeLeft--
+					default:
+						phase = 1
+					}
+				}
+				if phase == 1 {
+					if len(callV) > 0 {
+						acts = callV[:1]
+						switch victimKind {
+						case "reader":
+							victimProc = fmt.Sprintf("R%d", nextReader+1)
+						case "sync":
+							victimProc = fmt.Sprintf("S%d", nextSync-1)
+						case "delete":
+							victimProc = "D"
+						case "stop":
+							victimProc = "T"
+						default:
+							victimProc = "W"
+						}
+						phase = 2
+					} else {
+						phase = 4
+					}
+				} else if phase == 2 {
+					if victimSteps > 0 && len(relV) > 0 {
+						acts = relV[:1]
+						victimSteps--
+					} else {
+						phase = 3
+					}
+				}
+				if phase == 3 {
+					switch {
+					case len(relO) > 0:
+						acts = relO
+					case len(calls) > 0:
+						acts = calls[:1]
+					default:
+						phase = 4
+					}
+				}
 			}
 			a := acts[rnd.Intn(len(acts))]
 			switch a.kind {
@@ -312,6 +392,9 @@ func exploreOnce(t *testing.T, id int, rnd *rand.Rand, mode string) (rec0 Record
 				}()
 			case "delete":
 				delLeft = false
+				if h := int(st.Height()); h >= 2 && (rnd.Intn(2) == 0 || (preempt && victimKind == "delete")) {
+					c.delTo = h // everything below the current head: the deletion ends right under a head that appends are moving
+				}
 				go func() {
 					// may legitimately fail (range above the head when headers are missing): not judged
 					if err := st.DeleteRange(context.WithValue(bg, procKey{}, "D"), 1, uint64(c.delTo)); err == nil {
@@ -510,7 +593,7 @@ func exploreOnce(t *testing.T, id int, rnd *rand.Rand, mode string) (rec0 Record
 		_ = st.Stop(bg)
 		synctest.Wait()
 	})
-	rec0.Cfg = fmt.Sprintf("n=%d bsz=%d wants=%v script=%v syncs=%d delTo=%d late=%v empty=%v wipe=%v stopMid=%v", c.n, c.bsz, c.wants, c.script, c.syncs, c.delTo, c.late, c.empty, c.wipe, c.stopMid)
+	rec0.Cfg = fmt.Sprintf("n=%d bsz=%d wants=%v script=%v syncs=%d delTo=%d late=%v empty=%v wipe=%v stopMid=%v preempt=%v", c.n, c.bsz, c.wants, c.script, c.syncs, c.delTo, c.late, c.empty, c.wipe, c.stopMid, id%2 == 1)
 	return rec0, fatal
 }
 
